@@ -502,22 +502,30 @@ func runC17(p *core.Prog, r *core.Report) {
 			r.Touch(core.FuncName(fn))
 			var foundEdges, absentEdges []core.Edge
 			nLk := 0
-			core.Instrs(fn, func(in ssa.Instruction) {
+			core.InstrsDeep(fn, func(in ssa.Instruction) { // in the validation function or the helper that checks one reference
 				lk, ok := in.(*ssa.Lookup)
 				if !ok || !lk.CommaOk {
 					return
 				}
-				src := core.Trace(lk.Index, 1)
-				match := false
-				for _, k := range w.keyName {
-					if hasFieldNamed(src, k) {
-						match = true
+				// the key: the reference field itself, or the helper's parameter standing for it at each call
+				keys := []ssa.Value{lk.Index}
+				if cvs := core.CallerValues(fn, lk.Index); len(cvs) > 0 {
+					keys = cvs
+				}
+				matched := 0
+				for _, kv := range keys {
+					src := core.Trace(kv, 1)
+					for _, k := range w.keyName {
+						if hasFieldNamed(src, k) {
+							matched++
+							break
+						}
 					}
 				}
-				if !match {
+				if matched == 0 || matched != len(keys) {
 					return
 				}
-				nLk++
+				nLk += matched
 				for _, ref := range *lk.Referrers() {
 					ex, ok := ref.(*ssa.Extract)
 					if !ok || ex.Index != 1 {
@@ -622,7 +630,7 @@ func runC17(p *core.Prog, r *core.Report) {
 		// limits tested before the per-module maps are allocated in ValidateModules
 		vm := p.Func(pkgMani, "ValidateModules")
 		var limits []string
-		core.Instrs(vm, func(in ssa.Instruction) {
+		core.InstrsDeep(vm, func(in ssa.Instruction) { // in ValidateModules or the helpers it delegates the checks to
 			bo, ok := in.(*ssa.BinOp)
 			if !ok || bo.Op != token.GTR {
 				return
@@ -635,7 +643,7 @@ func runC17(p *core.Prog, r *core.Report) {
 		r.Check(strings.Join(limits, ",") == "100,30,300000000", "C17.R3", "ValidateModules/limits", "the request is bounded: at most 100 modules, 30 inputs per module, 300 MB of code", fmt.Sprintf("limit comparisons found: %v", limits), p.Pos(vm.Pos()))
 		// the module-count limit precedes the allocation of the per-module maps
 		var firstMake ssa.Instruction
-		core.Instrs(vm, func(in ssa.Instruction) {
+		core.InstrsDeep(vm, func(in ssa.Instruction) { // in ValidateModules or the helpers it delegates the checks to
 			if _, ok := in.(*ssa.MakeMap); ok && firstMake == nil {
 				firstMake = in
 			}
